@@ -13,6 +13,9 @@ modelling/virial.py `fit`; core/modelisotherm.py `__init__` branch selection and
 * `costErrSq`           – what an error derived from the optimiser's cost (`2·cost/n`, `cost = ½ Σ f_scale²·ρ((r/f_scale)²)`)
                            would be: equal to `rmseSq` only for the linear loss `ρ = id`,
 * `selectBranch`        – `data.loc[data['branch'] == 0 | 1]`,
+* `startGuess`          – start vector of a fit when `param_guess` names SOME parameters: the caller's value where given, the model's
+                           default guess elsewhere (core/modelisotherm.py `__init__`); `lookupAll` – the strict reading of the tree before
+                           the repair of finding S46-C12 (`KeyError` when a key is absent),
 * `inBounds`            – what "parameters respect the bounds in force" means.
 
 The optimiser (scipy.optimize.least_squares) is not modelled: every fit is decided by the oracle of the harness.
@@ -82,5 +85,18 @@ def costErrSq (rho : α → α) (fscale : α) (rs : List α) (range : α) : α :
 /-- rows of the requested branch (`0` adsorption, `1` desorption), order kept -/
 def selectBranch {β : Type} (rows : List (β × Nat)) (b : Nat) : List β :=
   (rows.filter (fun r => r.2 = b)).map (·.1)
+
+/-- start vector of a fit when the caller gives a starting guess for SOME parameters (`param_guess` dictionary; `none` = key absent):
+the caller's value where there is one, the model's own default guess elsewhere
+(`{**model.initial_guess(pressure, loading), **param_guess}`, read in the order of the parameter names) -/
+def startGuess {β : Type} (dflt : List β) (user : List (Option β)) : List β :=
+  List.zipWith (fun d u => u.getD d) dflt user
+
+/-- what the tree before the repair did with the caller's dictionary: `[param_guess[p] for p in param_names]` -
+defined only when every key is present (`none` = `KeyError`) -/
+def lookupAll {β : Type} : List (Option β) → Option (List β)
+  | [] => some []
+  | none :: _ => none
+  | some u :: us => (lookupAll us).map (u :: ·)
 
 end PgVerif.Model.Fit
